@@ -41,6 +41,7 @@ Definition model_of (report : string) : sx -> sx :=
   else if String.eqb report "C15" then c15_model
   else if String.eqb report "C16" then c16_model
   else if String.eqb report "C18" then c18_model
+  else if String.eqb report "C18svc" then (fun _ => A "no-model")
   else c20_model.
 
 Definition c08_model (x : sx) : sx := model_of (sx_str (sx_nth 0 x)) (sx_nth 1 x).
